@@ -45,6 +45,7 @@ type sessParams struct {
 	NatTimeout int64  `json:"natTimeout"` // seconds, what the model was given as UDPServer.Info().MinNATTimeout
 	Guard      int64  `json:"guard"`      // seconds, the property's "minute"
 	D          int64  `json:"d"`          // seconds, MaxEpochDiff the model was given
+	ProbeAll   bool   `json:"probeAll"`   // forged-copy probes in every behaviour (default: in every second one)
 }
 
 const ticksPerSec = 3
@@ -453,6 +454,17 @@ func run(t *testing.T, res *vio.Result, in *vio.Input, prm sessParams, bi int, b
 		// after the first difference from the model the rest is no longer a model behaviour: it is still executed and
 		// the property is still evaluated on it (the oracles need no model), but nothing is compared with the model any more
 		drifted := false
+		// state projection after EVERY step (also after the clock moved or a packet was packed): a copy with a flipped
+		// body bit of every packet packed so far.  Besides comparing the state with the model's, this is the junk --
+		// forged packets carrying the ids of the current, the old and unknown sessions at every instant of the history --
+		// whose inertness the twin run then judges.
+		probeAfter := func(si int) {
+			if o.probes && !o.skipBad && !drifted && si < len(obs) && obs[si].valid {
+				if !w.probe(obs[si], bi, si, hist) {
+					drifted = !b.Cex
+				}
+			}
+		}
 		for si, a := range acts {
 			if o.skipBad && o.bad[si] {
 				continue
@@ -468,6 +480,7 @@ func run(t *testing.T, res *vio.Result, in *vio.Input, prm sessParams, bi int, b
 				if !drifted {
 					completed = si + 1
 				}
+				probeAfter(si)
 				continue
 			case "Pack":
 				var pk *packet
@@ -527,6 +540,7 @@ func run(t *testing.T, res *vio.Result, in *vio.Input, prm sessParams, bi int, b
 				if !drifted {
 					completed = si + 1
 				}
+				probeAfter(si)
 				continue
 			case "Evict":
 				cs := w.cs[a.S]
@@ -546,6 +560,7 @@ func run(t *testing.T, res *vio.Result, in *vio.Input, prm sessParams, bi int, b
 				if !drifted {
 					completed = si + 1
 				}
+				probeAfter(si)
 				continue
 			case "SrvRecv", "CliRecv":
 			default:
@@ -638,12 +653,7 @@ func run(t *testing.T, res *vio.Result, in *vio.Input, prm sessParams, bi int, b
 			if !drifted {
 				completed = si + 1
 			}
-			// ---- state projection: a copy with a flipped body bit of every packet packed so far
-			if o.probes && !o.skipBad && !drifted && si < len(obs) && obs[si].valid {
-				if !w.probe(obs[si], bi, si, hist) {
-					drifted = !b.Cex
-				}
-			}
+			probeAfter(si)
 		}
 		ok = true
 		if !o.skipBad && !drifted {
@@ -836,7 +846,7 @@ func TestSession(t *testing.T) {
 		if b.ID != 0 {
 			bi = b.ID
 		}
-		probes := (in.Seed+int64(bi))%2 == 0
+		probes := prm.ProbeAll || (in.Seed+int64(bi))%2 == 0
 		full, done, ok := run(t, res, in, prm, bi, b, acts, obs, runOpts{probes: probes}, 0)
 		res.AddSteps(1, done)
 		if len(res.Broken) > 0 {
